@@ -17,7 +17,7 @@ def run(ctx):
              "non-trivial = commit/state/reopen/lazy line (distinct)")
     ctx.trust("tm-db MemDB/GoLevelDB (iteration order, batch atomicity)", "Sha256.lean (executable only) — compared with the implementation's hashes on every node")
     ctx.assume("pruning = nothing; all substores mounted before the first commit")
-    n = 150 if ctx.thorough else 14
+    n = 150 if ctx.thorough else 12
     ctx.stream("persist", "c04", "Driver/C04.lean", n=n)
     if ctx.thorough:
         scratch = os.path.join(ctx.outdir, "leveldb")
